@@ -227,6 +227,12 @@ func fnvStr(s string) uint64 {
 func (s *c10Sys) checkInv(es []c10Entry) (string, string) {
 	byP := map[uint64]c10Entry{}
 	ndev := s.drv.VerifNumDevices()
+	// the round-robin cursor of a unified device always names one of its member GPUs
+	for dev, act := range s.unified {
+		if n := s.drv.VerifNextActualGPUIndex(dev); n < 0 || n >= len(act) {
+			return "C10.inv.unified_cursor", fmt.Sprintf("unified device %d has %d member GPUs but its next-GPU cursor is %d (the next allocation on it indexes out of range)", dev, len(act), n)
+		}
+	}
 	for _, e := range es {
 		pg := e.pg
 		if pg.PAddr%s.ps != 0 || pg.VAddr%s.ps != 0 || pg.PageSize != s.ps || !pg.Valid {
@@ -413,7 +419,11 @@ func (s *c10Sys) capMulti(dev int, n int, fc []int) bool {
 		return false
 	}
 	if act, ok := s.unified[dev]; ok {
-		a := act[s.drv.VerifNextActualGPUIndex(dev)]
+		idx := s.drv.VerifNextActualGPUIndex(dev)
+		if idx < 0 || idx >= len(act) {
+			return false // reported by checkInv (C10.inv.unified_cursor)
+		}
+		a := act[idx]
 		return fc[a] >= n && fc[a] > 0
 	}
 	return fc[dev] >= n && fc[dev] > 0
